@@ -326,6 +326,45 @@ int g_reads;
         }                                                                                                             \
     }                                                                                                                 \
   while (0)
+/* one element */
+#define BUF_ONE_TO(s, off, b)                                                                                         \
+  do                                                                                                                  \
+    {                                                                                                                 \
+      if (g_idx == (off))                                                                                             \
+        {                                                                                                             \
+          ++g_buf_writes;                                                                                             \
+          g_src_ax = (b)->axial_pos_num; g_src_view = (b)->view_num; g_src_tang = (b)->tangential_pos_num;            \
+        }                                                                                                             \
+    }                                                                                                                 \
+  while (0)
+#define BUF_ONE_FROM(s, off)                                                                                          \
+  do                                                                                                                  \
+    {                                                                                                                 \
+      ++g_reads;                                                                                                      \
+      g_read_idx = (off);                                                                                             \
+    }                                                                                                                 \
+  while (0)
+/* whole segment by sinogram (nax x V x T block, axial positions outer) */
+#define BUF_SEG_TO(s, off, seg)                                                                                       \
+  do                                                                                                                  \
+    {                                                                                                                 \
+      const long K_off = (off), K_n = (long)NAXI(s, (seg) - (s)->min_seg) * C02_V * C02_T;                            \
+      if (g_idx >= K_off && g_idx < K_off + K_n)                                                                      \
+        {                                                                                                             \
+          const long K_qa = K_div(g_idx - K_off, C02_V * C02_T), K_r = (g_idx - K_off) - K_qa * (C02_V * C02_T), K_qv = K_div(K_r, C02_T); \
+          ++g_buf_writes;                                                                                             \
+          g_src_ax = (s)->min_ax[(seg) - (s)->min_seg] + (int)K_qa; g_src_view = (s)->min_view + (int)K_qv; g_src_tang = (s)->min_tang + (int)(K_r - K_qv * C02_T); \
+        }                                                                                                             \
+    }                                                                                                                 \
+  while (0)
+#define BUF_SEG_FROM(s, off, seg)                                                                                     \
+  do                                                                                                                  \
+    {                                                                                                                 \
+      ++g_reads;                                                                                                      \
+      g_read_idx = (off) + (long)(g_bin.axial_pos_num - (s)->min_ax[(seg) - (s)->min_seg]) * C02_V * C02_T            \
+                   + (long)(g_bin.view_num - (s)->min_view) * C02_T + (g_bin.tangential_pos_num - (s)->min_tang);    \
+    }                                                                                                                 \
+  while (0)
 #define K_RETURN_IF_ERROR(val)                                                                                        \
   do                                                                                                                  \
     {                                                                                                                 \
@@ -395,6 +434,33 @@ int g_reads;
                     ==> (g_buf_writes == 1 && g_src_view == g_bin.view_num && g_src_tang == g_bin.tangential_pos_num))
 #define CONTRACT_K_pdm_get_sinogram                                                                                  \
   __CPROVER_requires(__CPROVER_is_fresh(self, sizeof(*self)) && PATH_PRE(self) && SAME_SG(segment_num, ax_pos_num, timing_pos)) \
+  __CPROVER_assigns(g_error, g_reads, g_read_idx)                                                                      \
+  __CPROVER_ensures(!g_error && g_reads == 1 && g_read_idx == SPEC_INDEX(self, &g_bin))
+
+#define SEG_ARGS_OK(self, seg, tof) ((seg) >= (self)->min_seg && (seg) <= (self)->max_seg && (tof) >= (self)->min_tof && (tof) <= (self)->max_tof)
+/* ProjDataInMemory::get_bin_value / set_bin_value / set_segment(SegmentBySinogram) / get_segment_by_sinogram */
+#define CONTRACT_K_pdm_get_bin_value                                                                                  \
+  __CPROVER_requires(__CPROVER_is_fresh(self, sizeof(*self)) && __CPROVER_is_fresh(bin, sizeof(*bin)) && PATH_PRE(self) && PREFIX_FACT(self, bin)) \
+  __CPROVER_assigns(g_error, g_reads, g_read_idx)                                                                      \
+  __CPROVER_ensures(g_error == (BIN_IN_RANGE(self, bin) ? 0 : 1))                                                      \
+  __CPROVER_ensures(!g_error ==> (g_reads == 1 && g_read_idx == SPEC_INDEX(self, bin)))                                \
+  __CPROVER_ensures(g_error ==> g_reads == 0)
+#define CONTRACT_K_pdm_set_bin_value                                                                                  \
+  __CPROVER_requires(__CPROVER_is_fresh(self, sizeof(*self)) && __CPROVER_is_fresh(bin, sizeof(*bin)) && PATH_PRE(self) && PREFIX_FACT(self, bin)) \
+  __CPROVER_assigns(g_error, g_buf_writes, g_src_ax, g_src_view, g_src_tang)                                           \
+  __CPROVER_ensures(g_error == (BIN_IN_RANGE(self, bin) ? 0 : 1))                                                      \
+  __CPROVER_ensures(g_buf_writes <= 1 && (g_buf_writes == 1 ==> (!g_error && g_idx == SPEC_INDEX(self, bin))))         \
+  __CPROVER_ensures((!g_error && g_idx == SPEC_INDEX(self, bin)) ==> g_buf_writes == 1)
+#define CONTRACT_K_pdm_set_segment                                                                                    \
+  __CPROVER_requires(__CPROVER_is_fresh(self, sizeof(*self)) && PATH_PRE(self) && SEG_ARGS_OK(self, v_segment_num, v_timing_pos_num) && PREFIX_FACT_SEG(self, v_segment_num)) \
+  __CPROVER_assigns(g_error, g_buf_writes, g_src_ax, g_src_view, g_src_tang)                                           \
+  __CPROVER_ensures(!g_error && __CPROVER_return_value == 1 && g_buf_writes <= 1)                                      \
+  __CPROVER_ensures(g_buf_writes == 1 ==> (AX_IN_SEG(self, v_segment_num, g_src_ax) && VW_IN(self, g_src_view) && TG_IN(self, g_src_tang) \
+                                            && g_idx == SPEC_INDEX5(self, v_segment_num, g_src_ax, g_src_view, g_src_tang, v_timing_pos_num))) \
+  __CPROVER_ensures((g_bin.segment_num == v_segment_num && g_bin.timing_pos_num == v_timing_pos_num && g_idx == SPEC_INDEX(self, &g_bin)) \
+                    ==> (g_buf_writes == 1 && g_src_ax == g_bin.axial_pos_num && g_src_view == g_bin.view_num && g_src_tang == g_bin.tangential_pos_num))
+#define CONTRACT_K_pdm_get_segment                                                                                    \
+  __CPROVER_requires(__CPROVER_is_fresh(self, sizeof(*self)) && PATH_PRE(self) && g_bin.segment_num == segment_num && g_bin.timing_pos_num == timing_pos_num) \
   __CPROVER_assigns(g_error, g_reads, g_read_idx)                                                                      \
   __CPROVER_ensures(!g_error && g_reads == 1 && g_read_idx == SPEC_INDEX(self, &g_bin))
 
@@ -544,7 +610,6 @@ static inline int K_write_data(const struct PD* self, float* scale, int shape, i
 /* set_segment: by sinogram (writes the block itself in sinogram order, otherwise converts and calls the other one, used
    by CONTRACT) and by view (mirror image). gk_depth: ghost recursion depth, bounds the mutual recursion to one hop for the
    four supported storage orders. */
-#define SEG_ARGS_OK(self, seg, tof) ((seg) >= (self)->min_seg && (seg) <= (self)->max_seg && (tof) >= (self)->min_tof && (tof) <= (self)->max_tof)
 #define ORDER_SUPPORTED(self) ((self)->storage_order >= Segment_AxialPos_View_TangPos && (self)->storage_order <= Timing_Segment_View_AxialPos_TangPos)
 #define ORDER_SINO(self) ((self)->storage_order == Segment_AxialPos_View_TangPos || (self)->storage_order == Timing_Segment_AxialPos_View_TangPos)
 #define SEG_PRE(self) (__CPROVER_is_fresh(self, sizeof(*self)) && PDS_PRE(self) && ORDER_SUPPORTED(self) && SEG_ARGS_OK(self, v_segment_num, v_timing_pos_num) && PREFIX_FACT_SEG(self, v_segment_num))
@@ -637,4 +702,112 @@ static inline int K_read_data(const struct PD* self, float* scale, int shape, in
   __CPROVER_loop_invariant(!g_error && succeeded == 1 && g_unscaled == 0 && scale == 1.F && g_mult == 0 && g_mult_bad == 0 && bin.segment_num == segment_num && bin.axial_pos_num == ax_pos_num && bin.timing_pos_num == timing_pos && bin.tangential_pos_num == self->min_tang) \
   __CPROVER_loop_invariant(g_reads == (g_bin.view_num < bin.view_num ? 1 : 0) && (g_reads == 1 ==> g_read_off == SPEC_OFFSET(self, &g_bin))) \
   __CPROVER_decreases(self->max_view + 1 - bin.view_num)
+
+/* ================= ProjData base class: loops that build segment / related-viewgram / fill paths from the smaller ones =================
+   The called set_viewgram / get_viewgram / set_segment are identified by their index arguments and counted for one ghost
+   key (g_k1, g_k2, g_k3); calls may fail nondeterministically. A Segment's get_viewgram(v) is the viewgram with view
+   number v of that segment (Segment API, trusted). From the property ("segment by view or by sinogram, related viewgrams,
+   bulk fill or iteration ... read back unchanged through every other path"): each loop hands every part of the object to
+   the smaller path exactly once, with the part's own indices, and reports failure if one of them fails. */
+int g_k1, g_k2, g_k3;       /* ghost key: view (or index in the related set) / segment / TOF */
+int g_calls, g_bad, g_failed; /* calls with the ghost key; calls with indices that do not belong to the object; failed calls */
+static inline int K_segment_get_viewgram(int view_num) { return view_num; }
+static inline int K_call_set_viewgram(int view)
+{
+  if (view == g_k1)
+    ++g_calls;
+  if (nondet_bool())
+    {
+      g_failed = 1;
+      return 0;
+    }
+  return 1;
+}
+static inline int K_call_set_segment(int seg, int tof)
+{
+  if (seg == g_k2 && tof == g_k3)
+    ++g_calls;
+  if (nondet_bool())
+    {
+      g_failed = 1;
+      return 0;
+    }
+  return 1;
+}
+int g_want_seg, g_want_tof; /* get_segment_*: the segment / TOF the caller asked for */
+static inline void K_fetch_viewgram(int view, int seg, int tof)
+{
+  if (seg != g_want_seg || tof != g_want_tof)
+    ++g_bad;
+  else if (view == g_k1)
+    ++g_calls;
+}
+#define PD_LOOP_PRE(self) (__CPROVER_is_fresh(self, sizeof(*self)) && PD_VALID_CORE(self) && g_calls == 0 && g_bad == 0 && g_failed == 0 && g_error == 0)
+#define K1_IS_VIEW(self) (g_k1 >= (self)->min_view && g_k1 <= (self)->max_view)
+#define CONTRACT_K_pd_set_segment                                                                                     \
+  __CPROVER_requires(PD_LOOP_PRE(self))                                                                                \
+  __CPROVER_assigns(g_calls, g_failed)                                                                                 \
+  __CPROVER_ensures(g_calls <= 1 && (!K1_IS_VIEW(self) ==> g_calls == 0))                                              \
+  __CPROVER_ensures(__CPROVER_return_value == 1 ==> (!g_failed && (K1_IS_VIEW(self) ==> g_calls == 1)))                \
+  __CPROVER_ensures(__CPROVER_return_value == 0 ==> g_failed)
+#define LC_K_pd_set_segment(name)                                                                                     \
+  __CPROVER_assigns(view_num, g_calls, g_failed)                                                                       \
+  __CPROVER_loop_invariant(view_num >= self->min_view && view_num <= self->max_view + 1 && !g_failed)                  \
+  __CPROVER_loop_invariant(g_calls == ((K1_IS_VIEW(self) && g_k1 < view_num) ? 1 : 0))                                 \
+  __CPROVER_decreases(self->max_view + 1 - view_num)
+#define LC_K_pd_set_segment_by_sinogram_0 LC_K_pd_set_segment(0)
+#define LC_K_pd_set_segment_by_view_0 LC_K_pd_set_segment(0)
+#define CONTRACT_K_pd_get_segment                                                                                     \
+  __CPROVER_requires(PD_LOOP_PRE(self) && g_want_seg == segment_num && g_want_tof == timing_pos)                       \
+  __CPROVER_assigns(g_calls, g_bad)                                                                                    \
+  __CPROVER_ensures(g_bad == 0 && g_calls == (K1_IS_VIEW(self) ? 1 : 0))
+#define LC_K_pd_get_segment                                                                                           \
+  __CPROVER_assigns(view_num, g_calls, g_bad)                                                                          \
+  __CPROVER_loop_invariant(view_num >= self->min_view && view_num <= self->max_view + 1 && g_bad == 0)                 \
+  __CPROVER_loop_invariant(g_calls == ((K1_IS_VIEW(self) && g_k1 < view_num) ? 1 : 0))                                 \
+  __CPROVER_decreases(self->max_view + 1 - view_num)
+#define LC_K_pd_get_segment_by_sinogram_0 LC_K_pd_get_segment
+#define LC_K_pd_get_segment_by_view_0 LC_K_pd_get_segment
+#define CONTRACT_K_pd_set_related_viewgrams                                                                           \
+  __CPROVER_requires(n_viewgrams >= 0 && n_viewgrams <= 64 && g_calls == 0 && g_failed == 0)                           \
+  __CPROVER_assigns(g_calls, g_failed)                                                                                 \
+  __CPROVER_ensures(g_calls <= 1 && (!(0 <= g_k1 && g_k1 < n_viewgrams) ==> g_calls == 0))                             \
+  __CPROVER_ensures(__CPROVER_return_value == 1 ==> (!g_failed && ((0 <= g_k1 && g_k1 < n_viewgrams) ==> g_calls == 1))) \
+  __CPROVER_ensures(__CPROVER_return_value == 0 ==> g_failed)
+#define LC_K_pd_set_related_viewgrams_0                                                                               \
+  __CPROVER_assigns(r_viewgrams_iter, g_calls, g_failed)                                                               \
+  __CPROVER_loop_invariant(0 <= r_viewgrams_iter && r_viewgrams_iter <= n_viewgrams && !g_failed)                      \
+  __CPROVER_loop_invariant(g_calls == ((0 <= g_k1 && g_k1 < r_viewgrams_iter) ? 1 : 0))                                \
+  __CPROVER_decreases(n_viewgrams - r_viewgrams_iter)
+#define K23_IN(self) (g_k2 >= (self)->min_seg && g_k2 <= (self)->max_seg && g_k3 >= (self)->min_tof && g_k3 <= (self)->max_tof)
+/* fill(value): TOF outer, segment inner; fill(proj_data): segment outer, TOF inner. Every (segment, TOF) of the data is
+   set exactly once (from the source's segment with the same two numbers); a failing set_segment is an error */
+#define CONTRACT_K_pd_fill                                                                                            \
+  __CPROVER_requires(PD_LOOP_PRE(self))                                                                                \
+  __CPROVER_assigns(g_calls, g_failed, g_error)                                                                        \
+  __CPROVER_ensures(g_calls <= 1 && (!K23_IN(self) ==> g_calls == 0))                                                  \
+  __CPROVER_ensures(!g_error ==> (!g_failed && (K23_IN(self) ==> g_calls == 1)))                                       \
+  __CPROVER_ensures(g_error ==> g_failed)
+#define CONTRACT_K_pd_fill_value CONTRACT_K_pd_fill
+#define CONTRACT_K_pd_fill_from CONTRACT_K_pd_fill
+#define LC_K_pd_fill_value_0                                                                                          \
+  __CPROVER_assigns(timing_pos_num, g_calls, g_failed, g_error)                                                        \
+  __CPROVER_loop_invariant(timing_pos_num >= self->min_tof && timing_pos_num <= self->max_tof + 1 && !g_failed && !g_error) \
+  __CPROVER_loop_invariant(g_calls == ((K23_IN(self) && g_k3 < timing_pos_num) ? 1 : 0))                               \
+  __CPROVER_decreases(self->max_tof + 1 - timing_pos_num)
+#define LC_K_pd_fill_value_1                                                                                          \
+  __CPROVER_assigns(segment_num, g_calls, g_failed, g_error)                                                           \
+  __CPROVER_loop_invariant(segment_num >= self->min_seg && segment_num <= self->max_seg + 1 && !g_failed && !g_error)  \
+  __CPROVER_loop_invariant(g_calls == ((K23_IN(self) && (g_k3 < timing_pos_num || (g_k3 == timing_pos_num && g_k2 < segment_num))) ? 1 : 0)) \
+  __CPROVER_decreases(self->max_seg + 1 - segment_num)
+#define LC_K_pd_fill_from_0                                                                                           \
+  __CPROVER_assigns(segment_num, g_calls, g_failed, g_error)                                                           \
+  __CPROVER_loop_invariant(segment_num >= self->min_seg && segment_num <= self->max_seg + 1 && !g_failed && !g_error)  \
+  __CPROVER_loop_invariant(g_calls == ((K23_IN(self) && g_k2 < segment_num) ? 1 : 0))                                  \
+  __CPROVER_decreases(self->max_seg + 1 - segment_num)
+#define LC_K_pd_fill_from_1                                                                                           \
+  __CPROVER_assigns(timing_pos_num, g_calls, g_failed, g_error)                                                        \
+  __CPROVER_loop_invariant(timing_pos_num >= self->min_tof && timing_pos_num <= self->max_tof + 1 && !g_failed && !g_error) \
+  __CPROVER_loop_invariant(g_calls == ((K23_IN(self) && (g_k2 < segment_num || (g_k2 == segment_num && g_k3 < timing_pos_num))) ? 1 : 0)) \
+  __CPROVER_decreases(self->max_tof + 1 - timing_pos_num)
 #endif
